@@ -189,7 +189,16 @@ impl AsyncFunctionHandler for Publish {
         };
 
         // Clean null values from fields before serialization (required for swift-mt-message library)
-        let cleaned_data = clean_null_fields(&json_to_convert);
+        let mut cleaned_data = clean_null_fields(&json_to_convert);
+
+        // A header block that is present but empty (`{3:}`, `{5:}`) is not a null value: keep it present
+        for key in ["user_header", "trailer"] {
+            if json_to_convert.get(key).is_some_and(|v| v.as_object().is_some_and(|o| o.is_empty()))
+                && let Some(obj) = cleaned_data.as_object_mut()
+            {
+                obj.insert(key.to_string(), Value::Object(serde_json::Map::new()));
+            }
+        }
 
         // Extract message type from the JSON data
         let message_type = json_data.get("message_type")
